@@ -328,7 +328,7 @@ class Dispatcher:
             self._active_connections.discard(conn)
             # XXX: also check all entries in self._subscriptions?
             self._wait_for_broadcasts()
-        return (DISABLEEVENTSREPLY, None, None)
+        return (DISABLEEVENTSREPLY, specifier or None, None)
 
     def send_log_msg(self, conn, modname, level, msg):
         """send log message """
